@@ -798,104 +798,3 @@ func TestC05_R_RecordedZeroLengthNeedsNoBlocks(t *testing.T) {
 		t.Fatalf("C05: asking a node that records FileSize 0 for its end requested %d blocks (%v): the length is on record", len(log), shortCids(log))
 	}
 }
-
-// File nodes that record their children's sizes (BlockSizes, FileSize) over byte leaves stored under a third codec (dag-cbor
-// byte strings; neither raw nor dag-pb): a positioned read asks only for the blocks whose span meets the range.
-func TestC05_R_LeavesUnderAnotherCodec(t *testing.T) {
-	for _, layout := range []string{"one-level", "two-levels", "mixed-with-raw"} {
-		st := NewStore()
-		ls := st.LinkSystem()
-		var content []byte
-		var kids []*mnode
-		var sizes []uint64
-		for i := 0; i < 8; i++ {
-			c := lcgBytes(3+(i*5)%6, byte(i)+9, 0)
-			content = append(content, c...)
-			kids = append(kids, &mnode{IsRaw: true, Raw: c, Cbor: layout != "mixed-with-raw" || i%2 == 1})
-			sizes = append(sizes, uint64(len(c)))
-		}
-		node := func(ks []*mnode, ss []uint64) (*mnode, uint64) {
-			m := &mnode{HasData: true, UFS: &ufsFields{Type: 2}}
-			tot := uint64(0)
-			for i, k := range ks {
-				m.Links = append(m.Links, mlink{Tsize: i64p(int64(ss[i]) + 3), Child: k})
-				if k.IsRaw && !k.Cbor {
-					m.Links[i].Tsize = i64p(int64(ss[i]))
-				}
-				m.UFS.BlockSizes = append(m.UFS.BlockSizes, ss[i])
-				tot += ss[i]
-			}
-			m.UFS.FileSize = u64p(tot)
-			return m, tot
-		}
-		var root *mnode
-		if layout == "two-levels" {
-			a, as := node(kids[:3], sizes[:3])
-			b, bs := node(kids[3:], sizes[3:])
-			root, _ = node([]*mnode{a, b}, []uint64{as, bs})
-		} else {
-			root, _ = node(kids, sizes)
-		}
-		rc, err := root.store(st, ls)
-		if err != nil {
-			t.Fatalf("harness: %v", err)
-		}
-		// spans of every block below the root
-		type span struct {
-			c    cid.Cid
-			a, b int
-		}
-		var spans []span
-		var walk func(m *mnode, at int) int
-		walk = func(m *mnode, at int) int {
-			end := at
-			for _, l := range m.Links {
-				start := end
-				if l.Child.IsRaw {
-					end += len(l.Child.Raw)
-				} else {
-					end = walk(l.Child, end)
-				}
-				cc, _ := l.Child.store(NewStore(), NewStore().LinkSystem())
-				spans = append(spans, span{cc, start, end})
-			}
-			return end
-		}
-		walk(root, 0)
-		for a := 0; a < len(content); a++ {
-			for _, k := range []int{1, 2, 7, len(content) - a} {
-				b := a + k
-				if b > len(content) {
-					continue
-				}
-				rn, err := loadReified(ls, rc, "unixfs")
-				if err != nil {
-					t.Fatalf("C05: leaves under dag-cbor (%s): %v", layout, err)
-				}
-				st.ResetLogs()
-				rs, err := rn.(datamodel.LargeBytesNode).AsLargeBytes()
-				if err != nil {
-					t.Fatal(err)
-				}
-				if _, err := rs.Seek(int64(a), io.SeekStart); err != nil {
-					t.Fatal(err)
-				}
-				buf := make([]byte, k)
-				if _, err := io.ReadFull(rs, buf); err != nil || !bytes.Equal(buf, content[a:b]) {
-					t.Fatalf("C05: leaves under dag-cbor (%s): bytes [%d,%d) read as %x, %v", layout, a, b, buf, err)
-				}
-				for _, c := range st.ReadLog() {
-					ok := false
-					for _, sp := range spans {
-						if sp.c == c && sp.a < b && a < sp.b {
-							ok = true
-						}
-					}
-					if !ok {
-						t.Fatalf("C05: file whose sizes are recorded, leaves under dag-cbor (%s): reading bytes [%d,%d) requested block %s whose span does not meet the range (requested %v)", layout, a, b, c, shortCids(st.ReadLog()))
-					}
-				}
-			}
-		}
-	}
-}
